@@ -8,7 +8,7 @@ use serde_json::json;
 const RULE: &str = "cases = (constructed UTF-8 string, byte index a, byte index b); oracle = str::is_char_boundary / str::get(range) / &s[a'..b'] with indices clamped to len, expected panic iff an index < len is not a char boundary; results compared by address+length; non-trivial = an index strictly inside a multi-byte char, or == len, or > len, or start>end; distinct by (string,a,b,group)";
 
 #[derive(Serialize, Deserialize, Debug, Clone, Hash)]
-struct Case {
+pub struct Case {
     s: String,
     a: usize,
     /// None = single-index group
@@ -127,7 +127,7 @@ fn check_range(s: &str, a: usize, b: usize) -> Result<(), String> {
     Ok(())
 }
 
-fn run_case(c: &Case) -> Result<(), String> {
+pub fn run_case(c: &Case) -> Result<(), String> {
     match c.b {
         None => check_idx(&c.s, c.a),
         Some(b) => check_range(&c.s, c.a, b),
@@ -227,7 +227,7 @@ fn fold_idx((sel, raw): (u8, usize), len: usize) -> usize {
         _ => raw,
     }
 }
-fn fold_case(chars: &[char], a: (u8, usize), b: Option<(u8, usize)>) -> Case {
+pub fn fold_case(chars: &[char], a: (u8, usize), b: Option<(u8, usize)>) -> Case {
     let s: String = chars.iter().collect();
     let len = s.len();
     Case { a: fold_idx(a, len), b: b.map(|b| fold_idx(b, len)), s }
